@@ -1,0 +1,11 @@
+//go:build verif
+
+package edwards25519
+
+// VerifSignedRadix16 returns the 64 signed radix-16 digits the constant-time scalar
+// multiplications consume (build tag verif only).
+func VerifSignedRadix16(s *Scalar) [64]int8 { return s.signedRadix16() }
+
+// VerifNonAdjacentForm returns the width-w non-adjacent form the variable-time double scalar
+// multiplication consumes (build tag verif only).
+func VerifNonAdjacentForm(s *Scalar, w uint) [256]int8 { return s.nonAdjacentForm(w) }
